@@ -151,6 +151,32 @@ def path_records(args):
                 recs.append({'kind': 'path', 'len': L, 'size_ok': bool(size_ok), 'digests_ok': bool(dig_ok)})
                 with open(p, 'wb') as f:
                     f.write(data)
+            # the same file again in the same process after an in-place rewrite that keeps length, inode and
+            # mtime (rsync -t --inplace, cp -p, coarse timestamps): the digests are those of the bytes that are
+            # there NOW
+            if L > 0:
+                for hs in (names, names[:1]):
+                    try:
+                        st0 = os.stat(p)
+                        first = list(gem.gemato.verify.get_file_metadata(p, hs))[-1]
+                        cur = bytes((b ^ 0x55) for b in data)
+                        with open(p, 'r+b') as f:
+                            f.write(cur)
+                        os.utime(p, ns=(st0.st_atime_ns, st0.st_mtime_ns))
+                        ck = list(gem.gemato.verify.get_file_metadata(p, hs))[-1]
+                        e = gem.gemato.manifest.ManifestEntryDATA(
+                            'x', L, dict((n, first[n]) for n in hs))
+                        changed = gem.gemato.verify.update_entry_for_path(p, e, hashes=hs)
+                        ok, diff = gem.gemato.verify.verify_path(
+                            p, gem.gemato.manifest.ManifestEntryDATA('x', L, dict((n, reference(n, cur)) for n in hs)))
+                        size_ok = ck.get('__size__') == L and e.size == L
+                        dig_ok = all(ck.get(n) == reference(n, cur) for n in hs) and bool(changed) and bool(ok) \
+                            and all(e.checksums[n] == reference(n, cur) for n in hs)
+                    except Exception:  # noqa
+                        size_ok = dig_ok = False
+                    recs.append({'kind': 'path', 'len': L, 'size_ok': bool(size_ok), 'digests_ok': bool(dig_ok)})
+                    with open(p, 'wb') as f:
+                        f.write(data)
             os.unlink(p)
     finally:
         shutil.rmtree(d, ignore_errors=True)
